@@ -22,13 +22,14 @@ import (
 
 // rep is one table replica: a real fsm.FSM on its own in-memory file system.
 type rep struct {
-	id       int
-	fs       vfs.FS
-	srt      fsm.SnapshotRecoveryType
-	f        sm.IOnDiskStateMachine
-	applied  uint64
-	nmu      sync.Mutex
-	notified []uint64
+	id        int
+	fs        vfs.FS
+	srt       fsm.SnapshotRecoveryType
+	f         sm.IOnDiskStateMachine
+	applied   uint64
+	nmu       sync.Mutex
+	notified  []uint64
+	listening bool // the state machine was created by open(): its applied-index listener records into notified
 }
 
 func newRep(id int, srt fsm.SnapshotRecoveryType) *rep {
@@ -39,6 +40,7 @@ func newRep(id int, srt fsm.SnapshotRecoveryType) *rep {
 
 func (r *rep) open() uint64 {
 	// the applied-index listener (what feeds the follower's notification queue): every call is recorded
+	r.listening = true
 	r.f = fsm.New("tbl", "/data", r.fs, nil, nil, r.srt, func(i uint64) {
 		r.nmu.Lock()
 		r.notified = append(r.notified, i)
@@ -95,7 +97,11 @@ func (r *rep) update(tr *tracer.T, ents []logEntry) {
 	}
 	r.applied = ents[len(ents)-1].I
 	idx, lidx := r.indices()
-	tr.Emit(map[string]any{"ev": "update", "rep": r.id, "ents": evs, "idx": idx, "lidx": lidx, "notified": notified})
+	ev := map[string]any{"ev": "update", "rep": r.id, "ents": evs, "idx": idx, "lidx": lidx}
+	if r.listening {
+		ev["notified"] = notified
+	}
+	tr.Emit(ev)
 }
 
 func (r *rep) indices() (uint64, uint64) {
